@@ -16,6 +16,9 @@ structure Policy where
   quiet : Bool := false
   deriving Repr, DecidableEq, Inhabited
 
+/-- the words of an error policy (the fields of `Policy`), as `OnError` spells them -/
+def policyTokens : List String := ["collect", "fail", "print", "quiet", "raise", "stop"]
+
 /-- what the csvpath's `validation-mode` comment sets (None = not mentioned) -/
 structure Override where
   raise : Option Bool := none
